@@ -8,7 +8,7 @@ from .. import base, drivers, explore, report
 from . import common
 
 PROP = "C10"
-KQ = ("NL", "CE", "J")
+KQ = ("NL", "CE", "J", "CEE", "IND0")
 KT = KQ + ("W3", "CO", "NLI", "W0", "WT", "CD", "BL", "CEE", "IND3")
 
 
